@@ -403,7 +403,7 @@ def run_matrix(ctx):
 
 
 def shards(tier, seed):
-    n = 300 if tier == 'quick' else 12000
+    n = 300 if tier == 'quick' else 60000
     return [{'n': n, 'matrix': i == 0} for i in range(16)]
 
 
